@@ -101,6 +101,15 @@ Theorem spell_word_chain : forall wc pf pw pc w st o st',
 Proof. exact C15_SeededProofs.spell_word_chain. Qed.
 Print Assumptions spell_word_chain.
 
+(** spell_seeded_spec: the closure corrupt_spelling returns (artificial mode), for every seed, text,
+    dictionary tables and pair of probabilities: each word of the text is kept, or replaced by the end
+    of a chain of 1 .. max 1 |w| calls, or dropped when that end is empty; nothing else happens *)
+Theorem spell_seeded_spec : forall wc pf pw pc seed ws l,
+  wtabs_ok wc = true -> spell_seeded wc pf pw pc seed ws = Some l ->
+  exists os, Forall2 (word_result wc) ws os /\ l = keep_some os.
+Proof. exact C15_SeededProofs.spell_seeded_spec. Qed.
+Print Assumptions spell_seeded_spec.
+
 (** weighted_sample_pos: [WeightedIndex::<f64>::new(ws).sample(rng)] names a POSITIVE weight, for every
     generator state, when the weights are canonical binary64 values and the total is normal
     (listed as not proved in notes/RNG.md) *)
